@@ -1,13 +1,20 @@
 //@ assume: croaring::Bitmap (CRoaring, C code behind FFI) is an external type with abstract view Set<int> of u32 values; assumed contracts: add/remove/contains change or read exactly one element, remove_range removes exactly [lo, hi], or_inplace is set union, maximum is the greatest element, clone preserves the view
 //@ assume: positions satisfy pos0 < 2^32 - 1 (the code narrows `1 + pos0 as u32`); stated as a precondition, i.e. the MMR has fewer than 2^32 nodes
 //@ assume: decided here: the set algebra of the unspent-leaf bitmap (whole-view postconditions); fork trees, reorganisation histories, restart and the LMDB output index are outside this family (DESIGN 6 C02)
+//@ assume: LeafSet::flush: the disk content of the leaf-set file is a ghost out-parameter (T6: `Tracked(disk)` added to flush and to save_via_temp_file, whose contract -- Ok means the path holds exactly what the writer closure wrote, Err leaves it -- is assumed here and its step order decided in C09/save_via_temp_file); the writer closure is lifted and verified (T7); `serialize::<Portable>()` => serialize_portable(), a function of the set; run_optimize keeps the set
+//@ assume: decided here (C02 / C09): after a successful flush the file holds the CURRENT leaf set and discard() returns to the CURRENT leaf set -- for ANY previous backup, in particular when a reorg left a leaf set with the same number of leaves and the same last leaf as the backup
 //@ assume: 64-bit target
-//@ assumed_items: 9
-//@ fns: LeafSet::add, LeafSet::remove, LeafSet::includes, LeafSet::rewind, LeafSet::discard
+//@ assumed_items: 15
+//@ fns: LeafSet::add, LeafSet::remove, LeafSet::includes, LeafSet::rewind, LeafSet::discard, LeafSet::flush (+ its writer closure)
 global size_of usize == 8;
 
 #[verifier::external_body]
 pub struct ExtPath;
+impl ExtPath {
+    /// offered (not used by the pinned text): whether the file is there says nothing about its content
+    #[verifier::external_body]
+    pub fn exists(&self) -> (r: bool) { unimplemented!() }
+}
 
 #[verifier::external_body]
 pub struct Bitmap { _p: u8 }
@@ -51,7 +58,42 @@ impl Bitmap {
     pub fn clone(&self) -> (r: Bitmap)
         ensures r@ == self@
     { unimplemented!() }
+    /// offered (not used by the pinned text of flush)
+    #[verifier::external_body]
+    pub fn cardinality(&self) -> (r: u64)
+        ensures self@.finite() ==> r as nat == self@.len()
+    { unimplemented!() }
+    /// re-encodes the containers; the set is unchanged
+    #[verifier::external_body]
+    pub fn run_optimize(&mut self) -> (r: bool)
+        ensures final(self)@ == old(self)@
+    { unimplemented!() }
+    /// stands in for `serialize::<Portable>()`
+    #[verifier::external_body]
+    pub fn serialize_portable(&self) -> (r: Vec<u8>)
+        ensures r@ == sp_ser(self@)
+    { unimplemented!() }
 }
+/// the portable serialisation of a bitmap (a function of the set)
+pub uninterp spec fn sp_ser(s: Set<int>) -> Seq<u8>;
+pub struct IoError { pub k: u8 }
+pub mod io { pub type Result<T> = std::result::Result<T, super::IoError>; }
+/// the temp file handed to the writer closure: the bytes written to it so far
+pub struct TmpFile { pub written: Ghost<Seq<u8>> }
+impl TmpFile {
+    #[verifier::external_body]
+    pub fn write_all(&mut self, b: &Vec<u8>) -> (r: io::Result<()>)
+        ensures r.is_ok() ==> final(self).written@ == old(self).written@ + b@
+    { unimplemented!() }
+}
+/// what the leaf-set file holds on disk (ghost out-parameter of flush)
+pub tracked struct Disk { pub ghost content: Seq<u8> }
+pub struct WriteBitmap<'a> { pub ls: &'a LeafSet }
+/// save_via_temp_file(path, ext, f): create the temp file, run f on it, fsync, rename over `path` (step order: C09/save_via_temp_file). Ok means `path` now holds exactly what f wrote; Err leaves `path` as it was
+#[verifier::external_body]
+pub fn save_via_temp_file<'a>(path: &ExtPath, ext: &str, f: WriteBitmap<'a>, Tracked(disk): Tracked<&mut Disk>) -> (r: io::Result<()>)
+    ensures r.is_ok() ==> final(disk).content == sp_ser(f.ls.bitmap@), r.is_err() ==> final(disk).content == old(disk).content
+{ unimplemented!() }
 
 //@ extract store/src/leaf_set.rs :: struct LeafSet
 //@   rewrite `path: PathBuf,` => `path: ExtPath,`
@@ -91,6 +133,23 @@ impl LeafSet {
 //@   ensures:
 //@+    final(self).bitmap@ =~= old(self).bitmap@.filter(|x: int| x <= cutoff_pos).union(rewind_rm_pos@),
 //@+    final(self).bitmap_bak@ == old(self).bitmap_bak@,
+//@ end
+
+//@ extract store/src/leaf_set.rs :: impl LeafSet::flush
+//@   closure 1 lifted_as `fn write_bitmap(&self, file: &mut TmpFile) -> io::Result<()>`
+//@   rewrite `self.bitmap.serialize::<Portable>()` => `self.bitmap.serialize_portable()`
+//@   ensures:
+//@+    r.is_ok() ==> final(file).written@ == old(file).written@ + sp_ser(self.bitmap@),
+//@ end
+
+//@ extract store/src/leaf_set.rs :: impl LeafSet::flush
+//@   sigrewrite `pub fn flush(&mut self)` => `pub fn flush(&mut self, Tracked(disk): Tracked<&mut Disk>)`
+//@   closure 1 replaced_by `WriteBitmap { ls: &*self }, Tracked(disk)`
+//@   ensures:
+//@+    // Ok: the file holds the CURRENT leaf set and the in-memory backup (what discard() goes back to) is the current leaf set -- whatever the two looked like before
+//@+    r.is_ok() ==> final(disk).content == sp_ser(old(self).bitmap@) && final(self).bitmap_bak@ == old(self).bitmap@,
+//@+    r.is_err() ==> final(disk).content == old(disk).content && final(self).bitmap_bak@ == old(self).bitmap_bak@,
+//@+    final(self).bitmap@ == old(self).bitmap@,
 //@ end
 
 //@ extract store/src/leaf_set.rs :: impl LeafSet::discard
